@@ -284,7 +284,10 @@ class JobProc(SimProc):
             locks = re.findall(r"'''(.*?)'''", txt)
             spath = re.search(r'TaskRunner\("(.*?)"', txt).group(1)
             k.log("runner-start", x=self.x)
-            k.park()  # interpreter start-up: arbitrary delay
+            # interpreter start-up: arbitrary delay (workload knob start_len: a slow start-up spans
+            # many scheduling points, e.g. a cold file system)
+            for _ in range(max(1, int(W.cfg.get("start_len", 1)))):
+                k.park()
             try:
                 xrun.TaskRunner(spath, locks).run()
             except SystemExit as e:
